@@ -47,7 +47,7 @@ from crosshair.tracers import NoTracing  # noqa: E402
 
 from crosshair.libimpl import builtinslib as _bl  # noqa: E402
 
-from vf.hx import excluded, finish  # noqa: E402
+from vf.hx import cbool, cint, excluded, finish, untraced  # noqa: E402
 
 # CrossHair models str.join by concatenation with +. For items (or a separator) that are instances
 # of a str subclass this dispatches to the subclass operators: ";".join([Markup("&")]) came back as a
@@ -820,6 +820,93 @@ add_c("constructs", [(c, "none") for c in CONSTRUCTS if c != "out"] + [(c, "-") 
 add_c("capture", [("capture", k) for k in L1K], None, TH)
 add_c("fixed", [(c, "-") for c in FIXED if c not in FIXED_CORE], None, TH)
 add_c("arr", [("arr", k) for k in ARRK], None, TH)
+
+# --------------------------------------------------------------------------
+# D: values that are neither strings nor lists of strings (hashes, the (key, value) pairs a for
+# loop makes of a hash, tuples, nested lists, objects with only __str__, decimals): their str()
+# carries the data text and must be escaped like any other output
+# --------------------------------------------------------------------------
+class _Obj:
+    def __init__(self, text):
+        self.text = text
+
+    def __str__(self):
+        return self.text
+
+
+D_SRC = [
+    "{{ h }}", "{% for f in h %}{{ f }}{% endfor %}", "{% echo h %}", "{% cycle h, tup %}", "{% capture c %}{{ h }}{% endcapture %}{{ c }}",
+    "{{ tup }}", "{{ nested }}", "{{ obj }}", "{% assign v = h %}{{ v }}", "{% for f in h %}{{ f[1] }}{{ f | last }}{% endfor %}",
+    "{{ h | first }}", "{{ hs | first }}", "{{ hs | map: 'k' | first }}", "{{ hs | compact }}", "{% liquid echo tup %}",
+    "{{ h | default: 1 }}", "{% render 'pv', pv: h %}{% include 'pv', pv: tup %}", "{{ obj | default: 1 }}{{ nested | last }}",
+    "{{ (1..n2) }}{{ true }}{{ nil }}{{ 1.5 }}{{ n2 }}{{ h.size }}", "{% if h %}{{ h }}{% endif %}{% unless obj %}{% else %}{{ obj }}{% endunless %}",
+]
+D_TPLS = [LazyT(ENV_ON, _s) for _s in D_SRC]
+D_ALPHA = "<>&a;#lt" + chr(34) + chr(39)
+
+
+def d_text(i, j):
+    return ("" if i == 0 else D_ALPHA[i - 1]) + ("" if j == 0 else D_ALPHA[j - 1])
+
+
+def d_render(k, i, j):
+    s = d_text(i, j)
+    data = {"h": {"k": s}, "tup": ("k", s), "nested": [[s], {"k": s}], "obj": _Obj(s), "hs": [{"k": s}, None], "n2": 2}
+    try:
+        return D_TPLS[k].get().render(**data)
+    except Exception:
+        return ERR
+
+
+def c05_d_nonstring(k: int, i: int, j: int) -> bool:
+    """
+    pre: 0 <= k <= 19 and 0 <= i <= 10 and 0 <= j <= 10
+    post: _
+    """
+    # selector-only (str() of a container calls repr() of the text it holds, which CrossHair enumerates
+    # per code point): k selects the template, i and j the two code points of the data text
+    if excluded("c05_d_nonstring", locals()):
+        return True
+    k = cint(k, 0, 19)
+    i = cint(i, 0, 10)
+    j = cint(j, 0, 10)
+    return finish(untraced(lambda: html_safe(d_render(k, i, j))))
+
+
+DETAIL["c05_d_nonstring"] = lambda k, i, j: (D_SRC[k], d_text(i, j), d_render(k, i, j))
+CONDITIONS.append({"fn": "c05_d_nonstring", "quick": 60, "thorough": 120, "sel_only": True})
+
+# --------------------------------------------------------------------------
+# E: a value marked safe in one render does not make an equal plain string safe in the next
+# (process-wide memo of the date filter: Markup(x) == x and hash equal)
+# --------------------------------------------------------------------------
+E_TPL = LazyT(ENV_ON, "{{ d | date: f }}|{{ f | date: f }}")
+
+
+def e_render(i, j, lit):
+    text = "%Y" + d_text(i, j)
+    t = E_TPL.get()
+    if lit:
+        ENV_ON.from_string("{{ d | date: '" + text.replace(chr(39), "") + "' }}").render(d="2001-02-03")
+    t.render(d="2001-02-03", f=Markup(text))
+    return t.render(d="2001-02-03", f=text)
+
+
+def c05_e_safe_then_plain(i: int, j: int, lit: bool) -> bool:
+    """
+    pre: 0 <= i <= 10 and 0 <= j <= 10
+    post: _
+    """
+    if excluded("c05_e_safe_then_plain", locals()):
+        return True
+    i = cint(i, 0, 10)
+    j = cint(j, 0, 10)
+    lit = cbool(lit)
+    return finish(untraced(lambda: html_safe(e_render(i, j, lit))))
+
+
+DETAIL["c05_e_safe_then_plain"] = lambda i, j, lit: ("%Y" + d_text(i, j), e_render(i, j, lit))
+CONDITIONS.append({"fn": "c05_e_safe_then_plain", "quick": 30, "thorough": 60, "sel_only": True})
 
 ASSUMPTIONS = [
     "stub: markupsafe._escape_inner is bound to markupsafe._native._escape_inner (the documented pure-Python fallback) instead of the C speed-up, which would concretise symbolic strings before escaping; selftest compares both kernels",
